@@ -155,8 +155,10 @@ def ibtp_ops(r, frm, poor):
     ops = []
     mut = [dict(frm="a:b"), dict(frm=""), dict(to="::"), dict(to="x" * 5000 + ":a:b"), dict(index=0), dict(index=2**64 - 1), dict(typ=99), dict(typ=4),
            dict(timeout=-2**63), dict(timeout=2**63 - 1), dict(payload="ffff"), dict(group=["a", "b"]), dict(extra="00" * 3000),
-           dict(frm="9999:chainZ:svc"), dict(to="1356:chainQ:nosuch"), dict(frm="1356:chainA:svc1:extra")]
-    for mu in r.sample(mut, 6):
+           dict(frm="9999:chainZ:svc"), dict(to="1356:chainQ:nosuch"), dict(frm="1356:chainA:svc1:extra"),
+           # verified proofs whose handling makes the interchain contract panic (nil service / missing records): recovered by HandleIBTP
+           dict(typ=1, frm="1356:chainA:nosuch"), dict(typ=2, frm="1356:chainA:nosuch"), dict(typ=1), dict(typ=3, frm="1356:chainB:nosuch", to="1356:chainA:svc1")]
+    for mu in r.sample(mut, 8):
         i = X.ibtp(r.randrange(1, 4), **mu)
         # the proof check happens first: origin chain of a request is taken from From
         parts = i["from"].split(":")
@@ -222,6 +224,9 @@ def corpus(surface):
     out.append(h([xvm_deploy("u:0", True),
                   dict(tx={"t": "td", "from": "u:0", "to": "w:u:0/0", "type": 1, "vmtype": 1, "hex": "0a0c73746172745f766572696679"},
                        dtx=dtx("PfNotIbtp", True, "(BXvm None)", True), tag="xvm_invoke")], gas=0))
+    # verified IBTPs whose handling panics inside the interchain contract (nil service record): HandleIBTP's recover
+    out.append(h([dict(tx={"t": "ibtp", "from": "u:0", "ibtp": X.ibtp(1, typ=t, frm=f)}, dtx=dtx("PfVerified", True, "(BIbtp BUnknown)", True), tag="ibtp_contract_panic")
+                  for t, f in ((1, "1356:chainA:nosuch"), (2, "1356:chainA:nosuch"), (1, "1356:chainA:svc1"))]))
     # a rejected proof in every position of a block whose length is not a multiple of the group size, parallel grouping
     for pos in range(7):
         ops = []
